@@ -172,6 +172,8 @@ type runOpts struct {
 	lean    bool
 	sleepAt int // sleep 50ms in the sleepAt-th invocation after the reproduction run (deterministic mid-round cut)
 	noExit  bool
+	as      func(*recTB) rapid.TB     // the TB handed to Check (default: the recording TB itself)
+	during  func(call int, tb *recTB) // called at the start of every invocation of the property (1-based)
 }
 
 func runProgram(p *Prog, o runOpts) *checkRun {
@@ -183,7 +185,12 @@ func runBody(body func(x *X), o runOpts) *checkRun {
 	tb := newTB(o.name)
 	lg := &Log{noExit: o.noExit, lean: o.lean}
 	afterRepro := -1
+	calls := 0
 	prop := lg.prop(func(x *X) {
+		calls++
+		if o.during != nil {
+			o.during(calls, tb)
+		}
 		if o.sleepAt > 0 {
 			if x.inv.phase() == "reproduce" {
 				afterRepro = 0
@@ -197,7 +204,11 @@ func runBody(body func(x *X), o runOpts) *checkRun {
 		body(x)
 	})
 	start := time.Now()
-	runCheck(tb, prop)
+	if o.as != nil {
+		runCheckAs(tb, o.as(tb), prop)
+	} else {
+		runCheck(tb, prop)
+	}
 	cr := &checkRun{tb: tb, log: lg, dur: time.Since(start)}
 	cr.rp = parseReport(tb)
 	return cr
